@@ -373,14 +373,15 @@ int hwloc_topology_diff_build(hwloc_topology_t topo1,
 			if (!!dist1 != !!dist2)
                           goto roottoocomplex;
 			if (dist1->unique_type != dist2->unique_type
-			    || dist1->different_types || dist2->different_types /* too lazy to support this case */
+			    || !dist1->different_types != !dist2->different_types
 			    || dist1->nbobjs != dist2->nbobjs
 			    || dist1->kind != dist2->kind
 			    || memcmp(dist1->values, dist2->values, dist1->nbobjs * dist1->nbobjs * sizeof(*dist1->values)))
                           goto roottoocomplex;
 			for(i=0; i<dist1->nbobjs; i++)
 				/* gp_index isn't enforced above. so compare logical_index instead, which is enforced. requires distances refresh() above */
-				if (dist1->objs[i]->logical_index != dist2->objs[i]->logical_index)
+				if (dist1->objs[i]->logical_index != dist2->objs[i]->logical_index
+				    || dist1->objs[i]->depth != dist2->objs[i]->depth)
                                   goto roottoocomplex;
 			dist1 = dist1->next;
 			dist2 = dist2->next;
